@@ -267,7 +267,8 @@ func runC14(r *core.Run) {
 	s := r.Src
 	sch := core.NewSched(r)
 	h := &hsHarness{r: r, s: sch, chunky: s.Flip("chunky", 0.6)}
-	versions := []uint32{11, 12, 13, 14}
+	// 0 = a peer that predates the version field (proto3 does not put a zero on the wire)
+	versions := []uint32{11, 12, 13, 14, 0}
 	pickAccept := func(own uint32) []uint32 {
 		l := []uint32{own}
 		for _, v := range versions {
@@ -281,7 +282,7 @@ func runC14(r *core.Run) {
 	var ends []*hsEnd
 	nEnds := 2 + s.Choose("nends", 2)
 	for i := 0; i < nEnds; i++ {
-		v := versions[s.Choose("version", len(versions))]
+		v := versions[s.Weighted("version", []int{3, 3, 3, 3, 2})]
 		ends = append(ends, newEnd(fmt.Sprintf("E%d", i), v, pickAccept(v), s.Flip("reqauth", 0.3), nodes, s.Flip("isnode", 0.35)))
 	}
 	sch.Off = true
